@@ -91,7 +91,7 @@ D1x   == {Map(<<KA, KB>>, <<One, Null>>), Map(<<KE>>, <<Str(<<>>)>>), Map(<<<<>>
 Inner == {Arr(<<>>), Map(<<>>, <<>>), Arr(<<Null>>), Arr(<<One>>), Map(<<KA>>, <<Null>>)}
          \cup (IF Wide THEN {Arr(<<Str(<<97>>)>>), Arr(<<Null, One>>), Map(<<KA>>, <<One>>)} ELSE {})
 Inner2 == IF Wide THEN Inner ELSE {Arr(<<>>), Map(<<>>, <<>>), Arr(<<One>>)}
-D2 == {Arr(<<x>>) : x \in Inner} \cup {Map(<<KA>>, <<x>>) : x \in Inner}
+D2 == {Arr(<<x>>) : x \in Inner} \cup {Map(<<KA>>, <<x>>) : x \in Inner2 \cup {Map(<<KA>>, <<Null>>)}}
       \cup {Arr(<<x, Null>>) : x \in Inner2} \cup {Arr(<<Bool(TRUE), x>>) : x \in Inner2}
       \cup {Arr(<<Arr(<<x>>)>>) : x \in {Arr(<<>>)} \cup (IF Wide THEN {Map(<<KA>>, <<Null>>)} ELSE {})}
       \cup (IF Wide THEN {Map(<<KA, KB>>, <<Arr(<<>>), Map(<<>>, <<>>)>>), Arr(<<One, Map(<<KA>>, <<One>>)>>)} ELSE {})
@@ -130,7 +130,8 @@ BerUniverse(P) ==
                         \cup {Bin(Rep(n, 65)) : n \in {0, 1, 127, 128, 256}} \cup {Bin(<<104, 105>>), Bin(<<0, 1, 127>>)}
                         \cup {BerStr(19, <<97, 32, 98>>), BerStr(22, <<97, 64, 98>>), BerStr(22, <<>>)}
                         \cup {BerOid(<<1, 2, 840, 113549>>), BerOid(<<2, 5, 4, 3>>), BerOid(<<0, 39>>), BerOid(<<1, 3, 6, 1, 4, 1, 311, 21, 20>>)}
-    ELSE D1S({Null, One, Str(<<97>>)}) \cup {Arr(<<x>>) : x \in {Arr(<<>>), Arr(<<One>>)}} \cup {Arr(<<Arr(<<>>), Str(<<>>)>>)}
+    ELSE D1S(IF Wide THEN {Null, One, Str(<<97>>)} ELSE {Null, One}) \cup {Arr(<<Str(<<97>>)>>), Arr(<<Str(<<97>>), One>>)}
+         \cup {Arr(<<x>>) : x \in {Arr(<<>>), Arr(<<One>>)}} \cup {Arr(<<Arr(<<>>), Str(<<>>)>>)}
          \cup {BerSet(<<>>), BerSet(<<One, Null>>), BerCtx(0, <<One>>), BerCtx(3, <<>>), BerCtx(31, <<Null>>), BerCtx(200, <<One, Str(<<97>>)>>),
                Arr(<<BerCtx(0, <<>>), BerSet(<<>>)>>), Arr(<<Arr(<<Arr(<<>>)>>)>>), Arr(<<Str(Rep(200, X))>>)}
          \cup (IF Wide THEN {Arr(<<Bin(<<104, 105>>)>>), Arr(<<Arr(<<One>>), Bool(TRUE)>>), Arr(<<Arr(<<One, One>>)>>),
@@ -161,7 +162,8 @@ Universe(P) ==
            IF P = "atoms" THEN {Doc1(v) : v \in Scalars \cup {v \in IntsAll : SFits(v, 8)} \cup {s \in Strs : InBsonStr(s)}
                                                     \cup {F64(b) : b \in F64s} \cup BsonSpecials}
                                   \cup {Map(<<>>, <<>>), Map(<<KE>>, <<Null>>), Map(<<Rep(300, X)>>, <<Bool(TRUE)>>)}
-           ELSE {Doc1(x) : x \in D1(Small)} \cup {Doc1(x) : x \in D2} \cup {Map(<<KA, KB>>, v) : v \in Seqs(Small, 2)}
+           ELSE {Doc1(x) : x \in D1(Small)} \cup {Doc1(x) : x \in (IF Wide THEN D2 ELSE {Arr(<<y>>) : y \in Inner} \cup {Map(<<KA>>, <<y>>) : y \in Inner})}
+                \cup {Map(<<KA, KB>>, v) : v \in Seqs(Small, 2)}
                 \cup {Map(<<KA, KB>>, <<x, y>>) : x, y \in {Arr(<<>>), Map(<<>>, <<>>), Arr(<<IntV(FALSE, <<1>>)>>)}}
                 \cup {Doc1(Arr([i \in 1..11 |-> IntV(FALSE, <<i>>)])), Doc1(Arr(<<Bx("undef"), Bx("minkey")>>)),
                       Doc1(Map(<<KA>>, <<[t |-> "bson", ty |-> "binary", sub |-> 0, x |-> <<104, 105>>]>>))}
@@ -194,7 +196,9 @@ Rejects(P) == IF Format = "bencode" /\ P = "atoms"
            ELSE {}
 
 \* truncation points (lengths of the proper prefixes to try) and trailing data
-Cuts(n) == IF n <= 48 THEN 0..(n - 1) ELSE (0..12) \cup {n \div 2} \cup ((n - 3)..(n - 1))
+\* every proper prefix up to a length bound (quick tier: 16 for the nested part), beyond it the ends and the middle
+CutsB(n, b) == IF n <= b THEN 0..(n - 1) ELSE (0..8) \cup {n \div 2} \cup ((n - 4)..(n - 1))
+Cuts(P, n) == CutsB(n, IF P = "atoms" \/ Wide THEN 48 ELSE 16)
 Trails(P, v, e) == IF P = "atoms" /\ v.t # "nulls" THEN {<<0>>, <<255, 255>>, <<e[1]>>} ELSE {<<e[1]>>}
 
 Parts == IF Part = "all" THEN {"atoms", "nested"} ELSE {Part}
@@ -206,5 +210,5 @@ Init == \E P \in Parts :
 Next == FALSE /\ c' = c
 Spec == Init /\ [][Next]_c
 Emit == PrintT(ToJson([f |-> Format, part |-> c.part, kind |-> c.kind, val |-> c.val, bytes |-> c.bytes,
-                       repr |-> ReprOf(c.val), cuts |-> Cuts(RLen(c.bytes)), trails |-> Trails(c.part, c.val, c.bytes)]))
+                       repr |-> ReprOf(c.val), cuts |-> Cuts(c.part, RLen(c.bytes)), trails |-> Trails(c.part, c.val, c.bytes)]))
 =============================================================================
